@@ -19,6 +19,7 @@ SCHEMA_FIELDS = [
 SCHEMAS = {
     "A": SCHEMA_FIELDS,
     "B": SCHEMA_FIELDS + [{"id": 3, "name": "w", "type": "string", "required": False}],
+    "Ar": list(reversed(SCHEMA_FIELDS)),      # schema A spelled with its columns in the other order (same ids)
 }
 
 
@@ -255,6 +256,15 @@ def exec_op(ctx: Ctx, op: dict, rec: dict) -> Any:
         tx = t.new_transaction().begin()
         tx.append_files([df])
         res["registered"] = True
+        if op.get("second"):
+            # a SECOND append_files() call in the same transaction, for a file (and maybe a directory) that did not exist
+            # when the first call ran
+            op2 = dict(op, tag=op["tag"] + "b", **op["second"])
+            op2.pop("second", None)
+            df2, rows2, rel2 = stage_prebuilt(t, sim, op2)
+            tx.append_files([df2])
+            res["appends"] = [rows, rows2]
+            res["staged2"] = rel2
         if op.get("gap"):
             sim.sleep(op["gap"])
         if op.get("rollback"):
